@@ -191,7 +191,7 @@ def c01():
         "configurations; per publish TLC checks outcome, epoch, 'digest = reference hash of the real leaves' and 'real leaves = "
         "Leaves(state)', plus digest = function of committed history across replays (memo). Non-trivial = distinct behaviours "
         "with an effective publish at epoch >= 2 (updates / stale leaves / decompression exist).",
-        cfg_policy="both", extra_quick_cfgs=["MCDirectory_empty.cfg"],
+        cfg_policy="both", extra_quick_cfgs=["MCDirectory_empty.cfg"], with_long=True,
         assumptions=["the reference hash formulas in harness/src/refhash.rs are an independent transcription of akd_core/src/lib.rs"])
 
 def c02():
